@@ -316,7 +316,7 @@ func runC05(w *World, r *Report) {
 			})
 		}
 		if n == 0 {
-			undecidedf("C05.rerun-input-rebuilt-from-state: no pre-handler of react.NewAgent appends a *schema.Message input to the state")
+			r.Deferred = append(r.Deferred, fmt.Sprintf("C05.rerun-input-rebuilt-from-state: no pre-handler of react.NewAgent appends a *schema.Message input to the state"))
 		}
 	}
 
@@ -666,7 +666,7 @@ func runC05(w *World, r *Report) {
 			})
 		}
 		if n < 2 {
-			undecidedf("C05.task-context-per-task: only %d setNodeKey / forwardCheckPoint calls found", n)
+			r.Deferred = append(r.Deferred, fmt.Sprintf("C05.task-context-per-task: only %d setNodeKey / forwardCheckPoint calls found", n))
 		}
 	}
 
